@@ -68,21 +68,23 @@ Proof.
   pose proof (Z.mul_div_le (us_of n - us_of s) 1000 ltac:(lia)). nia.
 Qed.
 
-(* the literal claim fails twice: truncation towards zero of a negative microsecond difference
-   (501 us have passed, the C code counts 1 ms), and a clock that steps back *)
+(* the literal claim fails even for a monotonic clock: truncation towards zero of a negative microsecond
+   difference (501 us have passed, the C code counts 1 ms) *)
 Lemma timeout_not_early_refuted_rounding : ~ C17_timeout_not_early_full_statement.
 Proof.
   intros H. specialize (H (mkTv 0 999999) (mkTv 1 500) 1).
   unfold normal, expired, us_of in H. simpl in H. assert (E : give_up (mkTv 0 999999) (mkTv 1 500) 1 = true) by (vm_compute; reflexivity).
-  specialize (H ltac:(lia) ltac:(lia) ltac:(lia) E). lia.
+  specialize (H ltac:(lia) ltac:(lia) ltac:(lia) ltac:(lia) E). lia.
 Qed.
 
-Lemma timeout_not_early_refuted_backwards : ~ C17_timeout_not_early_full_statement.
-Proof.
-  intros H. specialize (H (mkTv 9 0) (mkTv 8 999999) 50).
-  unfold normal, expired, us_of in H. simpl in H. assert (E : give_up (mkTv 9 0) (mkTv 8 999999) 50 = true) by (vm_compute; reflexivity).
-  specialize (H ltac:(lia) ltac:(lia) ltac:(lia) E). lia.
-Qed.
+(* the "clock set backward" branch of the C code: whenever the seconds of a reading are below those of the start the wait
+   gives up, whatever the timeout.  With a monotonic clock no input reaches it; it is a statement about the code only. *)
+Theorem clock_backward_branch s n ms : tv_sec n < tv_sec s -> give_up s n ms = true.
+Proof. intros H. unfold give_up. apply Z.ltb_lt in H. rewrite H. reflexivity. Qed.
+
+(* a monotonic, normalised clock never takes that branch *)
+Theorem monotonic_never_backward s n : normal s -> normal n -> us_of s <= us_of n -> (tv_sec n <? tv_sec s) = false.
+Proof. unfold normal, us_of. intros Hs Hn H. apply Z.ltb_ge. lia. Qed.
 
 (* the timeout argument *)
 Theorem effective_timeout_spec arg :
